@@ -7,12 +7,19 @@ import (
 	"os"
 
 	"verif/mc/core"
-	_ "verif/mc/props"
+	"verif/mc/props"
 )
 
 func main() {
 	if len(os.Args) >= 6 && os.Args[1] == "worker" {
 		core.WorkerMain(os.Args[2:])
+		return
+	}
+	if len(os.Args) == 3 && os.Args[1] == "clifixtures" {
+		if err := props.CLIFixtures(os.Args[2]); err != nil {
+			fmt.Println(err)
+			os.Exit(2)
+		}
 		return
 	}
 	if len(os.Args) < 3 {
